@@ -306,6 +306,7 @@ def run_sign_artifacts(spec, rec, lib):
         ("good", key.seed.hex(), True), ("good_upper_padded", "  " + key.seed.hex().upper() + "\n", True),
         ("good_only_conda_section", key.seed.hex(), True), ("good_only_packages_section", key.seed.hex(), True),
         ("good_both_sections_empty", key.seed.hex(), True), ("good_one_artifact", key.seed.hex(), True),
+        ("good_resign_after_hotfix", key.seed.hex(), True), ("good_planted_own_key_entries", key.seed.hex(), True),
         ("key_not_hex", "zz" * 32, False), ("key_short", key.seed.hex()[:-2], False), ("key_empty", "", False),
         ("key_long", key.seed.hex() + "00", False), ("key_missing", None, False),
         ("repodata_not_json", key.seed.hex(), False), ("repodata_no_packages", key.seed.hex(), False),
@@ -327,6 +328,22 @@ def run_sign_artifacts(spec, rec, lib):
                          "good_one_artifact": {"packages": {"a-1-0.tar.bz2": {"name": "a"}}}}.get(scen)
                 if shape is not None:
                     orig = json.dumps(shape).encode()
+                if scen == "good_resign_after_hotfix":
+                    # history kept in the file: signed earlier with this very key, then an artifact's metadata was edited
+                    base_doc = json.loads(json.dumps(doc))
+                    signed_doc = c11.expected_doc(base_doc, key)
+                    for sec in ("packages", "packages.conda"):
+                        for j, (an, md) in enumerate(sorted(signed_doc.get(sec, {}).items())):
+                            if j % 2 == 0 and isinstance(md, dict):
+                                md["depends-hotfix"] = ["x >=%d" % rep]
+                            elif j % 2 == 0:
+                                signed_doc[sec][an] = {"replaced": md}
+                    orig = canonjson.canon(signed_doc)
+                elif scen == "good_planted_own_key_entries":
+                    base_doc = json.loads(json.dumps(doc))
+                    base_doc["signatures"] = {an: {key.hex: {"signature": "%0128x" % rng.getrandbits(512)}}
+                                              for sec in ("packages", "packages.conda") for an in base_doc.get(sec, {})}
+                    orig = json.dumps(base_doc).encode()
                 if scen == "repodata_not_json":
                     orig = b"{nope"
                 elif scen == "repodata_no_packages":
